@@ -357,12 +357,13 @@ fn run_case(c: &Case) -> (Vec<Alarm>, Vec<String>, u64, u64) {
         };
         // a watchdog thread stops the loop if the transfer stalls (verdict by the readiness predicate)
         let sig = el.get_signal();
+        let stall_limit: u64 = if c.len > (1 << 20) { 20 } else { 6 };
         let fin = std::sync::Arc::new(std::sync::atomic::AtomicBool::new(false));
         let fin2 = fin.clone();
         let wd = std::thread::spawn(move || {
             let t = Instant::now();
             while !fin2.load(std::sync::atomic::Ordering::SeqCst) {
-                if t.elapsed() > Duration::from_secs(20) {
+                if t.elapsed() > Duration::from_secs(stall_limit) {
                     sig.stop();
                     sig.wakeup();
                     return true;
@@ -386,6 +387,10 @@ fn run_case(c: &Case) -> (Vec<Alarm>, Vec<String>, u64, u64) {
         }
     }
     let mut thread_read: Option<Vec<u8>> = None;
+    if !alarms.borrow().is_empty() || !inconclusive.is_empty() {
+        // a stalled transfer leaves the peer thread blocked in read/write: it is not waited for
+        threads.clear();
+    }
     for t in threads {
         if let Ok(v) = t.join() {
             if c.reader_is_thread && !v.is_empty() {
